@@ -13,6 +13,7 @@ DRIVER = "props/C04/driver.ml"
 PROGS = {"c04unit": ["props/C04/unit.cpp"]}
 
 WIDTHS = [1.0, 0.5, 0.25, 2.0]
+KB = 0.001987191      # colvarproxy_system::boltzmann_ (kcal/mol/K), the default of the engine simulator
 
 
 def floor_fr(q):
@@ -29,17 +30,29 @@ def pdiff(d, P):
 
 
 # ------------------------------------------------------------------------------- generator
-def gen_case(r, k, same=None):
+def gen_case(r, k, same=None, long_=False):
     nd = r.choice([1, 1, 1, 2, 2, 3])
     if same is None:
         same = r.random() < 0.5
     vars_ = []
     for d in range(nd):
         v = {}
-        v["periodic"] = r.random() < (0.5 if nd == 1 else 0.25)
+        # "dz": distanceZ of one atom (value = z exactly, Jacobian force 0);
+        # "dist": distance of an atom on the z axis from an atom at the origin (value r = z, Jacobian force 2kT/r)
+        # "lin2": a two-component variable c1*distanceZ(atom a) + c2*distanceZ(atom b) with coefficients (1,1) or (1,-1)
+        #         (linear combination: total force = sum_i c_i f_i / sum_i c_i^2, applied force c_i f to component i); the
+        #         generator puts atom b at z = +-1/4 and gives both atoms engine forces e and +-e, so that every
+        #         floating-point operation of the combination is exact and the one-variable model still ties bit-exactly
+        kk = r.random()
+        v["kind"] = "dist" if kk < 0.3 else ("lin2" if kk < 0.45 else "dz")
+        v["c2"] = r.choice([1.0, -1.0])
+        v["onesite"] = r.random() < 0.5
+        v["periodic"] = v["kind"] == "dz" and r.random() < (0.5 if nd == 1 else 0.25)
         v["w"] = r.choice(WIDTHS)
         v["nx"] = r.randint(1, 5 if nd < 3 else 3)
-        if v["periodic"]:
+        if v["kind"] == "dist":
+            v["lower"] = V.dyadic(r, 0, 3, bits=2) + 0.5
+        elif v["periodic"]:
             v["nx"] = max(v["nx"], 2)
             v["P"] = v["w"] * v["nx"]
             v["c"] = V.dyadic(r, -3, 3, bits=2)
@@ -57,9 +70,32 @@ def gen_case(r, k, same=None):
     c = {"id": k, "vars": vars_, "same": same, "full": full, "min": mn,
          "apply": r.random() < 0.85, "update": r.random() < 0.92,
          "cap": r.random() < 0.3, "maxf": [r.choice([0.0, 0.5, 1.0, 2.0, 8.0]) for _ in range(nd)],
-         "szd": same and r.random() < 0.3, "hideJ": r.random() < 0.3,
+         "szd": same and r.random() < 0.3, "hideJ": r.random() < 0.4,
+         "T": r.choice([0.0, 250.0, 1000.0, 4000.0]),
          "abf_first": r.random() < 0.5}
-    nsteps = r.randint(6, 26)
+    # scaledBiasingForce: a factor per bin of a grid with the geometry of the ABF grid
+    nt = 1
+    for v in vars_:
+        nt *= v["nx"]
+    c["scaled"] = r.random() < 0.25
+    c["sfac"] = [r.choice([0.0, 0.25, 0.5, 0.5, 1.0, 2.0, -1.0]) for _ in range(nt)] if c["scaled"] else []
+    # inputPrefix: counts and gradients read from .count/.grad files before the first step
+    if r.random() < 0.25:
+        c["input"] = []       # one data set per prefix of the inputPrefix list
+        for _ in range(r.choice([1, 1, 2])):
+            icnt = [r.choice([0, 0, 1, 2, 3, 5, 8]) for _ in range(nt)]
+            c["input"].append({"cnt": icnt, "grad": [(V.dyadic(r, -4, 4, bits=2) if icnt[a] > 0 else 0.0) for a in range(nt) for _ in range(nd)]})
+    # applyBias switched at run time (cv bias a set apply_force 0|1) before some steps
+    c["toggle"] = r.random() < 0.2
+    # timeStepFactor k > 1 on the bias and its variables (only allowed with same-step total forces): they are
+    # awake at the steps that are multiples of k.  ORACLE ONLY: the Coq model has no timeStepFactor, these cases
+    # are not compared with it.  No restraint (its own timeStepFactor would be 1) and no run-time switching.
+    c["tsf"] = r.choice([2, 3]) if (same and r.random() < 0.12) else 1
+    if c["tsf"] > 1:
+        c["toggle"] = False
+        for v in vars_:
+            v["hk"] = None
+    nsteps = r.randint(60, 160) if long_ else r.randint(6, 26)
     steps = []
     prev = None
     for s in range(nsteps):
@@ -79,6 +115,8 @@ def gen_case(r, k, same=None):
                     z = v["lower"] + r.choice([-1, 1]) * (span + r.randint(1, 24) * v["w"] / 8) + (span if r.random() < .5 else 0)
                 if v["periodic"] and r.random() < 0.4:
                     z += r.randint(-2, 2) * v["P"]
+                if v["kind"] == "dist" and z <= 0.0:
+                    z = 0.125     # a distance stays positive
                 zs.append(z)
         for d, v in enumerate(vars_):
             m = r.random()
@@ -92,12 +130,81 @@ def gen_case(r, k, same=None):
                 es.append(V.dyadic(r, -8, 8, bits=3))
         steps.append({"z": zs, "e": es, "boundary": boundary})
         prev = zs
+    if c["toggle"]:
+        cur = c["apply"]
+        for st in steps[1:]:
+            if r.random() < 0.25:
+                cur = not cur
+            st["apply"] = cur
     c["steps"] = steps
     return c
 
 
+def apply_at(c, st):
+    """applyBias at a step: the configured value, or what the last `cv bias a set apply_force` left"""
+    return st.get("apply", c["apply"])
+
+
+def cv_applies(c, st, d):
+    """f_cv_apply_force of variable d at a step: some bias applies forces to it"""
+    return apply_at(c, st) or c["vars"][d]["hk"] is not None
+
+
+def inputs_of(c):
+    i = c.get("input")
+    return [] if not i else ([i] if isinstance(i, dict) else i)
+
+
+def input_grid_files(c, ds):
+    """<prefix>.count and <prefix>.grad in the multicolumn format (inputPrefix) of one data set"""
+    vs, nd = c["vars"], len(c["vars"])
+    hdr = ["# %d" % nd] + ["# %s %s %d %d" % (fmt(v["lower"]), fmt(v["w"]), v["nx"], 1 if v["periodic"] else 0) for v in vs] + [""]
+    lc, lg = list(hdr), list(hdr)
+    ix = [0] * nd
+    for a in range(len(ds["cnt"])):
+        rem = a
+        for d in range(nd - 1, -1, -1):
+            ix[d] = rem % vs[d]["nx"]
+            rem //= vs[d]["nx"]
+        xs = " ".join(fmt(v["lower"] + (i + 0.5) * v["w"]) for v, i in zip(vs, ix))
+        lc.append(xs + " %d" % ds["cnt"][a])
+        lg.append(xs + " " + " ".join(fmt(g) for g in ds["grad"][a * nd:(a + 1) * nd]))
+    return "\n".join(lc) + "\n", "\n".join(lg) + "\n"
+
+
 def colvar_value(v, z):
     return wrap(z, v["c"], v["P"]) if v["periodic"] else z
+
+
+def kind(v):
+    return v.get("kind", "dz")
+
+
+def jac_force(c, v, z):
+    """colvar::fj = Jacobian derivative * kT, with the floating-point operations of the code:
+    distance: jd = 2.0 / x; fj = jd * 1.0 / 1.0; fj *= boltzmann * temperature.  distanceZ: jd = 0"""
+    if kind(v) != "dist":
+        return 0.0
+    x = colvar_value(v, z)
+    jd = (2.0 / x) if x != 0.0 else 0.0
+    return jd * (KB * c.get("T", 0.0))
+
+
+def jac_forces(c, st):
+    return [jac_force(c, v, z) for v, z in zip(c["vars"], st["z"])]
+
+
+def atom_map(c):
+    """1-based atom numbers of each variable: (main, None) for distanceZ, (moving atom, atom at the origin) for distance"""
+    out, n = [], 0
+    for v in c["vars"]:
+        if kind(v) in ("dist", "lin2"):
+            out.append((n + 2, n + 1))
+            n += 2
+        else:
+            out.append((n + 1, None))
+            n += 1
+    return out, n
 
 
 def harm_force(v, x):
@@ -117,16 +224,55 @@ def fmt(x):
     return repr(float(x))
 
 
+def scaling_grid_file(c):
+    """scaledBiasingForceFactorsGrid in the multicolumn format of colvar_grid::read_multicol"""
+    vs = c["vars"]
+    L = ["# %d" % len(vs)]
+    for v in vs:
+        L.append("# %s %s %d %d" % (fmt(v["lower"]), fmt(v["w"]), v["nx"], 1 if v["periodic"] else 0))
+    L.append("")
+    ix = [0] * len(vs)
+    for a in range(len(c["sfac"])):
+        rem = a
+        for d in range(len(vs) - 1, -1, -1):
+            ix[d] = rem % vs[d]["nx"]
+            rem //= vs[d]["nx"]
+        L.append(" ".join(fmt(v["lower"] + (i + 0.5) * v["w"]) for v, i in zip(vs, ix)) + " " + fmt(c["sfac"][a]))
+    return "\n".join(L) + "\n"
+
+
+def scale_factor(c, st):
+    """factor applied to the ABF force at a step (colvarbias::communicate_forces)"""
+    if not c.get("scaled"):
+        return Fr(1)
+    ix = bin_of(c, st)
+    return Fr(c["sfac"][address(c, ix)]) if in_grid(c, ix) else Fr(1)
+
+
 def scenario(c):
     nd = len(c["vars"])
-    L = ["echo CASE %s" % c["id"], "natoms %d" % nd, "samestep %d" % (1 if c["same"] else 0), "includecv 1", "new", "config EOF"]
+    amap, natoms = atom_map(c)
+    L = ["echo CASE %s" % c["id"], "natoms %d" % natoms, "samestep %d" % (1 if c["same"] else 0), "includecv 1",
+         "temperature %s" % fmt(c.get("T", 0.0)), "prefix %s" % c["id"], "new", "config EOF"]
     for d, v in enumerate(c["vars"]):
         L += ["colvar {", "  name v%d" % d, "  lowerBoundary %s" % fmt(v["lower"]), "  upperBoundary %s" % fmt(v["upper"]),
               "  width %s" % fmt(v["w"])]
+        if c.get("tsf", 1) > 1:
+            L += ["  timeStepFactor %d" % c["tsf"]]
         if v["sub"]:
             L += ["  subtractAppliedForce on"]
-        L += ["  distanceZ {", "    main { atomNumbers %d }" % (d + 1), "    ref { dummyAtom (0,0,0) }", "    axis (0,0,1)",
-              "    oneSiteTotalForce on"]
+        if kind(v) == "dist":
+            L += ["  distance {", "    group1 { atomNumbers %d }" % amap[d][1], "    group2 { atomNumbers %d }" % amap[d][0]]
+            if v.get("onesite"):
+                L += ["    oneSiteTotalForce on"]
+        elif kind(v) == "lin2":
+            L += ["  distanceZ {", "    main { atomNumbers %d }" % amap[d][0], "    ref { dummyAtom (0,0,0) }", "    axis (0,0,1)",
+                  "    oneSiteTotalForce on", "  }",
+                  "  distanceZ {", "    componentCoeff %s" % fmt(v["c2"]), "    main { atomNumbers %d }" % amap[d][1],
+                  "    ref { dummyAtom (0,0,0) }", "    axis (0,0,1)", "    oneSiteTotalForce on"]
+        else:
+            L += ["  distanceZ {", "    main { atomNumbers %d }" % amap[d][0], "    ref { dummyAtom (0,0,0) }", "    axis (0,0,1)",
+                  "    oneSiteTotalForce on"]
         if v["periodic"]:
             L += ["    period %s" % fmt(v["P"]), "    wrapAround %s" % fmt(v["c"])]
         L += ["  }", "}"]
@@ -137,8 +283,14 @@ def scenario(c):
         abf += ["  maxForce " + " ".join(fmt(m) for m in c["maxf"])]
     if c["szd"]:
         abf += ["  stepZeroData on"]
+    if c.get("tsf", 1) > 1:
+        abf += ["  timeStepFactor %d" % c["tsf"]]
     if c["hideJ"]:
         abf += ["  hideJacobian on"]
+    if c.get("scaled"):
+        abf += ["  scaledBiasingForce on", "  scaledBiasingForceFactorsGrid %s.sf" % c["id"]]
+    if inputs_of(c):
+        abf += ["  inputPrefix " + " ".join("%s_in%d" % (c["id"], n) for n in range(len(inputs_of(c))))]
     abf += ["}"]
     harm = []
     hv = [d for d, v in enumerate(c["vars"]) if v["hk"] is not None]
@@ -148,14 +300,32 @@ def scenario(c):
                  "  forceConstant %s" % fmt(v["hk"]), "}"]
     L += (abf + harm) if c["abf_first"] else (harm + abf)
     L += ["EOF", "show cv 0 energy 0 bias 0 atomf 0"]
+    cur_apply = c["apply"]
     for st in c["steps"]:
         for d in range(nd):
-            L.append("pos %d 0 0 %s" % (d + 1, V.hexf(st["z"][d])))
-            L.append("eforce %d 0 0 %s" % (d + 1, V.hexf(st["e"][d])))
+            a, a0 = amap[d]
+            L.append("pos %d 0 0 %s" % (a, V.hexf(st["z"][d])))
+            L.append("eforce %d 0 0 %s" % (a, V.hexf(st["e"][d])))
+            if a0 is not None and kind(c["vars"][d]) == "lin2":
+                # value = z_a + c2 * z_b with z_b = c2/4: z_a = value - 1/4; both components feel the variable force e
+                c2 = c["vars"][d]["c2"]
+                L[-2] = "pos %d 0 0 %s" % (a, V.hexf(st["z"][d] - 0.25))
+                L.append("pos %d 0 0 %s" % (a0, V.hexf(0.25 * c2)))
+                L.append("eforce %d 0 0 %s" % (a0, V.hexf(c2 * st["e"][d])))
+            elif a0 is not None:     # the partner atom of a distance stays at the origin and feels the opposite force
+                L.append("pos %d 0 0 0" % a0)
+                L.append("eforce %d 0 0 %s" % (a0, V.hexf(-st["e"][d])))
+        if apply_at(c, st) != cur_apply:
+            cur_apply = apply_at(c, st)
+            L.append("script cv bias a set apply_force %d" % (1 if cur_apply else 0))
         if st["boundary"]:
             L.append("runboundary")
         L.append("step")
         L.append("dumpabf a")
+    # second observation channel: the ABF block of the saved state (samples / gradient = value_output)
+    L.append("save text %s.state" % c["id"])
+    # third channel: the <prefix>.count / <prefix>.grad files written at the end of the run
+    L.append("postrun")
     return L
 
 
@@ -165,20 +335,30 @@ def model_case(c):
     parts = ["ABF", str(nd)]
     parts += [V.hexf(v["lower"]) for v in vs] + [V.hexf(v["w"]) for v in vs] + [str(v["nx"]) for v in vs]
     parts += ["1" if v["periodic"] else "0" for v in vs]
-    parts += [str(c["full"]), str(c["min"]), str(int(c["apply"])), str(int(c["update"])), str(int(c["cap"]))]
+    parts += [str(c["full"]), str(c["min"]), str(int(c["update"])), str(int(c["cap"]))]
     parts += [V.hexf(m) for m in c["maxf"]]
     parts += [str(int(c["szd"])), str(int(c["same"]))] + [str(int(v["sub"])) for v in vs]
+    parts += [str(int(c["hideJ"]))]
+    parts += [str(int(v["hk"] is not None)) for v in vs]
+    nt = 1
+    for v in vs:
+        nt *= v["nx"]
+    parts += [str(int(bool(c.get("scaled"))))] + [V.hexf(x) for x in (c["sfac"] if c.get("scaled") else [1.0] * nt)]
+    parts += [str(len(inputs_of(c)))]
+    for ds in inputs_of(c):
+        parts += [str(x) for x in ds["cnt"]] + [V.hexf(g) for g in ds["grad"]]
     parts += [str(len(c["steps"]))]
     for st in c["steps"]:
         parts += [V.hexf(colvar_value(v, z)) for v, z in zip(vs, st["z"])]
         parts += [V.hexf(e) for e in st["e"]]
         parts += [V.hexf(o) for o in other_forces(c, st)]
-        parts += [str(int(st["boundary"]))]
+        parts += [V.hexf(j) for j in jac_forces(c, st)]
+        parts += [str(int(st["boundary"])), str(int(apply_at(c, st)))]
     return " ".join(parts)
 
 
 # ------------------------------------------------------------------------------- parsing
-KEYS = ("bin", "fbin", "cf", "tf", "af", "cnt", "sum", "per", "nx")
+KEYS = ("bin", "fbin", "cf", "tf", "af", "cnt", "sum", "go", "per", "nx")
 
 
 def parse_fields(tokens):
@@ -190,10 +370,14 @@ def parse_fields(tokens):
             cur = t
             out[cur] = []
         elif cur is not None:
-            if cur in ("bin", "fbin", "cnt", "per", "nx"):
-                out[cur].append(int(t))
-            else:
-                out[cur].append(float.fromhex(t))
+            # a token cut short by a crash of the implementation (or garbage) never compares equal
+            try:
+                if cur in ("bin", "fbin", "cnt", "per", "nx"):
+                    out[cur].append(int(t))
+                else:
+                    out[cur].append(float.fromhex(t))
+            except ValueError:
+                out[cur].append(float("nan"))
     return out
 
 
@@ -273,7 +457,7 @@ def expected_samples(c):
     """The attributed samples of the property: (address of the bin occupied when the force was exerted,
     total force minus what Colvars itself applied [the ABF force; every Colvars force with
     subtractAppliedForce]) = engine force (+ other biases' forces when they are part of the measured
-    total force and not subtracted).  Returns (list of (address, [Fraction]*nd, step), zero_total_steps)."""
+    total force and not subtracted) (+ the Jacobian force 2kT/r of a distance, unless hideJacobian).  Returns (list of (address, [Fraction]*nd, step), zero_total_steps)."""
     nd = len(c["vars"])
     clk = clocks(c)
     out = []
@@ -283,7 +467,7 @@ def expected_samples(c):
             continue
         if c["same"]:
             rel, cont = clk[t]
-            elig = (rel > 0 and not cont) or c["szd"]
+            elig = ((rel > 0 and not cont) or c["szd"]) and rel % c.get("tsf", 1) == 0
         else:
             if t + 1 >= n:
                 continue
@@ -295,11 +479,14 @@ def expected_samples(c):
         if not in_grid(c, ix):
             continue
         o = other_forces(c, st)
+        j = jac_forces(c, st)
         F = []
         for d, v in enumerate(c["vars"]):
             f = Fr(st["e"][d])
             if not c["same"] and not v["sub"]:
                 f += Fr(o[d])
+            if not c["hideJ"]:
+                f += Fr(j[d])       # the Jacobian term is part of the total force unless hideJacobian
             F.append(f)
         out.append((address(c, ix), F, t))
     return out
@@ -317,7 +504,7 @@ def expected_abf_force(c, st, cnt, sm):
     """applied ABF force from the implementation's own arrays (exact)"""
     nd = len(c["vars"])
     ix = bin_of(c, st)
-    if not c["apply"] or not in_grid(c, ix):
+    if not apply_at(c, st) or not in_grid(c, ix):
         return [Fr(0)] * nd
     a = address(c, ix)
     N = cnt[a]
@@ -327,7 +514,8 @@ def expected_abf_force(c, st, cnt, sm):
         f.append(ramp(c, N) * mean)
     if nd == 1 and c["vars"][0]["periodic"]:
         nx = c["vars"][0]["nx"]
-        avg = sum((Fr(sm[b]) / cnt[b] if cnt[b] > 0 else Fr(0)) for b in range(nx)) / nx
+        # zero mean: the grid average of the SAME ramped estimates
+        avg = sum((ramp(c, cnt[b]) * Fr(sm[b]) / cnt[b] if cnt[b] > 0 else Fr(0)) for b in range(nx)) / nx
         f[0] -= avg
     if c["cap"]:
         for d in range(nd):
@@ -373,7 +561,36 @@ def value_zero_steps(c, impl_steps):
     return hits
 
 
-def oracle(c, impl_steps):
+def parse_state(path):
+    """ABF block of a text state file -> (counts, gradients) as printed (value_output, 14 digits)"""
+    try:
+        txt = open(path).read()
+    except OSError:
+        return None
+    m = re.search(r"abf\s*\{.*?\nsamples\s*\n(.*?)\n\s*\ngradient\s*\n(.*?)\n\}", txt, flags=re.S)
+    if not m:
+        return None
+    try:
+        return [int(x) for x in m.group(1).split()], [float(x) for x in m.group(2).split()]
+    except ValueError:
+        return None
+
+
+def parse_multicol(path, nd, mult):
+    """values of a multicolumn grid file (colvar_grid::write_multicol): per line nd coordinates then mult values"""
+    try:
+        out = []
+        for l in open(path):
+            w = l.split()
+            if not w or w[0].startswith("#"):
+                continue
+            out += [float(x) for x in w[nd:nd + mult]]
+        return out
+    except (OSError, ValueError):
+        return None
+
+
+def oracle(c, impl_steps, state=None, files=None):
     """property oracle on the implementation's output alone; returns list of (signature, text)"""
     bad = []
     nd = len(c["vars"])
@@ -383,20 +600,38 @@ def oracle(c, impl_steps):
     if len(impl_steps) != len(c["steps"]):
         return [("oracle:steps", "implementation reported %d steps of %d" % (len(impl_steps), len(c["steps"])))]
     # applied force at every step
+    tsf = c.get("tsf", 1)
+    clk_ = clocks(c)
     for t, (st, f) in enumerate(zip(c["steps"], impl_steps)):
+        if clk_[t][0] % tsf != 0:
+            # bias and variables asleep: nothing is computed and nothing may be applied
+            if any(x != 0.0 for x in f["af"]):
+                bad.append(("oracle:af", "step %d: timeStepFactor %d, the variables are asleep but apply the force %s" % (t, tsf, f["af"])))
+                break
+            continue
         exp = expected_abf_force(c, st, f["cnt"], f["sum"])
         if not all(close(a, b) for a, b in zip(exp, f["cf"])):
             bad.append(("oracle:cf", "step %d: ABF force %s, but ramp(count)*mean(-force) [zero-mean, cap] of the stored arrays gives %s"
                         % (t, f["cf"], [float(x) for x in exp])))
             break
         o = other_forces(c, st)
-        if not all(close(Fr(a) + Fr(b), g) for a, b, g in zip(f["cf"], o, f["af"])):
-            bad.append(("oracle:af", "step %d: force applied to the variables %s is not ABF force %s + restraint force %s" % (t, f["af"], f["cf"], o)))
+        # the hidden Jacobian force is compensated only by a variable that applies forces
+        jj = [(j if c["hideJ"] and cv_applies(c, st, d) else 0.0) for d, j in enumerate(jac_forces(c, st))]
+        sf = scale_factor(c, st)
+        # impulse multiple time stepping: the force applied at an awake step is multiplied by timeStepFactor
+        if not all(close(Fr(a) * sf * tsf + Fr(b) - Fr(j) * tsf, g) for a, b, j, g in zip(f["cf"], o, jj, f["af"])):
+            bad.append(("oracle:af", "step %d: force applied to the variables %s is not (ABF force %s * scaling factor %s - hidden Jacobian force %s) * timeStepFactor %d + restraint force %s" % (t, f["af"], f["cf"], float(sf), jj, tsf, o)))
             break
     # final arrays = attributed samples
     smp = expected_samples(c)
     cnt = [0] * nt
     sm = [Fr(0)] * (nt * nd)
+    for ds in inputs_of(c):
+        # inputPrefix: counts read, and gradient read * count read, of every data set
+        for a in range(nt):
+            cnt[a] += ds["cnt"][a]
+        for i in range(nt * nd):
+            sm[i] += Fr(ds["grad"][i]) * ds["cnt"][i // nd]
     for a, F, t in smp:
         cnt[a] += 1
         for d in range(nd):
@@ -405,55 +640,273 @@ def oracle(c, impl_steps):
     if cnt != last["cnt"]:
         bad.append(("oracle:cnt", "stored counts %s differ from the number of attributed samples per bin %s" % (last["cnt"], cnt)))
     elif not all(close(a, b) for a, b in zip(sm, last["sum"])):
-        zt = zero_total_steps(c, impl_steps)
-        vz = value_zero_steps(c, impl_steps)
-        sig = "sample:subtractAppliedForce-zero-total-force" if zt else ("sample:force-dropped-at-value-zero" if vz else "oracle:sum")
-        k = [i for i, (a, b) in enumerate(zip(sm, last["sum"])) if not close(a, b)][0]
+        badk = [i for i, (a, b) in enumerate(zip(sm, last["sum"])) if not close(a, b)]
+        dbad = set(i % nd for i in badk)          # the variables whose sums are wrong
+        zt = [h for h in zero_total_steps(c, impl_steps) if h[1] in dbad]
+        vz = [h for h in value_zero_steps(c, impl_steps) if h[1] in dbad]
+        jvar = [d for d in dbad if kind(c["vars"][d]) == "dist" and c.get("T", 0.0) != 0.0 and c["hideJ"]]
+        # hideJacobian with same-step forces: fj added although no compensating force is in the total force
+        hj = [d for d in jvar if c["same"] and not c["vars"][d]["sub"]]
+        # hideJacobian, lagged forces, no bias applies a force to the variable (applyBias off, no restraint): the
+        # compensating force -fj never reaches the atoms but fj is added to / f_old subtracted from the measured force
+        hn = [d for d in jvar if not c["same"] and not c["apply"] and not c.get("toggle") and c["vars"][d]["hk"] is None]
+        # hideJacobian, lagged forces, applyBias switched at run time on a distance variable without another bias:
+        # collect_cvc_total_forces looks at f_cv_apply_force of the current step for the force of the previous one
+        hs = [d for d in jvar if not c["same"] and c.get("toggle") and c["vars"][d]["hk"] is None]
+        if zt:
+            sig, why = "sample:subtractAppliedForce-zero-total-force", " (measured total force exactly zero at (step,variable) %s)" % zt[:3]
+        elif vz:
+            sig, why = "sample:force-dropped-at-value-zero", " (value exactly 0 at (step,variable) %s)" % vz[:3]
+        elif hj and len(hj) == len(dbad):
+            sig, why = "sample:hideJacobian-same-step-adds-jacobian", " (hideJacobian, same-step forces, distance variable(s) %s)" % hj
+        elif hn and len(hn) == len(dbad):
+            sig, why = "sample:hideJacobian-without-applied-force", " (hideJacobian, lagged forces, no bias applies a force to distance variable(s) %s)" % hn
+        elif hs and len(hs) == len(dbad):
+            sig, why = "sample:hideJacobian-applyBias-switched", " (hideJacobian, lagged forces, applyBias switched at run time, distance variable(s) %s)" % hs
+        elif c.get("toggle") and not c["same"] and all(not c["vars"][d]["sub"] for d in dbad):
+            sig, why = "sample:applyBias-switched-stale-applied-force", " (applyBias switched at run time, lagged forces)"
+        elif c.get("scaled") and not c["same"] and c["apply"] and all(not c["vars"][d]["sub"] for d in dbad):
+            sig, why = "sample:scaledBiasingForce-unscaled-force-subtracted", " (scaledBiasingForce on, lagged forces)"
+        else:
+            sig, why = "oracle:sum", ""
+        k = badk[0]
         bad.append((sig, "stored gradient sums differ from minus the summed attributed samples: element %d is %s, expected %s%s"
-                    % (k, last["sum"][k], float(sm[k]), (" (measured total force exactly zero at (step,variable) %s)" % zt[:3]) if zt else ((" (value exactly 0 at (step,variable) %s)" % vz[:3]) if vz else ""))))
+                    % (k, last["sum"][k], float(sm[k]), why)))
+    else:
+        # the property as worded: the stored gradient (value_output, what the state file contains) is minus the
+        # arithmetic mean of the attributed samples, 0 in an empty bin -- through the accessor and the saved state
+        mean = [(sm[a * nd + d] / cnt[a] if cnt[a] > 0 else Fr(0)) for a in range(nt) for d in range(nd)]
+        go = last.get("go")
+        if go is None or len(go) != len(mean) or not all(close(a, b) for a, b in zip(mean, go)):
+            bad.append(("oracle:gradient", "stored gradient (value_output) %s is not minus the mean of the attributed samples %s" % (go, [float(x) for x in mean])))
+        if state is not None:
+            scnt, sgrad = state
+            if scnt != cnt:
+                bad.append(("oracle:state-samples", "'samples' of the saved state %s differ from the number of attributed samples per bin %s" % (scnt, cnt)))
+            elif len(sgrad) != len(mean) or not all(close(a, b, 1e-12) for a, b in zip(mean, sgrad)):
+                bad.append(("oracle:state-gradient", "'gradient' of the saved state %s is not minus the mean of the attributed samples %s" % (sgrad, [float(x) for x in mean])))
+        if files is not None:
+            fcnt, fgrad = files
+            if fcnt is None or [int(x) for x in fcnt] != cnt:
+                bad.append(("oracle:file-count", "the .count file written at the end of the run %s differs from the number of attributed samples per bin %s" % (fcnt, cnt)))
+            elif fgrad is None or len(fgrad) != len(mean) or not all(close(a, b, 1e-9) for a, b in zip(mean, fgrad)):
+                bad.append(("oracle:file-gradient", "the .grad file written at the end of the run %s is not minus the mean of the attributed samples %s" % (fgrad, [float(x) for x in mean])))
     return bad
 
 
-# ------------------------------------------------------------------------------- witnesses of the _refuted theorems
+# ------------------------------------------------------------------------------- regression inputs of repaired defects
+# The minimal inputs on which the tree violated C04 before the fix commits (they were the witnesses of the
+# `_refuted` theorems of the first version of this slice, now Examples E1..E4 of Properties_C04.v).  They are
+# replayed on the implementation at every run, first, so that a regression is reported with the minimal input.
+def _v1(**kw):
+    v = {"kind": "dz", "periodic": False, "w": 1.0, "nx": 2, "lower": 0.0, "upper": 2.0, "sub": False, "hk": None, "hc": 0.0}
+    v.update(kw)
+    return v
+
+
+def _c1(cid, v, steps, **kw):
+    c = {"id": cid, "vars": [v], "same": False, "full": 2, "min": 1, "apply": False, "update": True, "cap": False,
+         "maxf": [0.0], "szd": False, "hideJ": False, "T": 0.0, "abf_first": True,
+         "steps": [{"z": [z], "e": [e], "boundary": b} for (z, e, b) in steps]}
+    c.update(kw)
+    return c
+
+
 def witness_zero_total():
-    """C04_abf_state_is_sample_sum_refuted: subtractAppliedForce, lagged forces, restraint force +1 and
-    engine force -1 at step 0: the measured total force is exactly 0, colvar.cpp skips ft -= f_old,
-    and the sample recorded for step 0 is 0 instead of -1."""
-    v = {"periodic": False, "w": 1.0, "nx": 2, "lower": 0.0, "upper": 2.0, "sub": True, "hk": 1.0, "hc": 1.5}
-    return {"id": "W1", "vars": [v], "same": False, "full": 2, "min": 1, "apply": False, "update": True, "cap": False,
-            "maxf": [0.0], "szd": False, "hideJ": False, "abf_first": True,
-            "steps": [{"z": [0.5], "e": [-1.0], "boundary": False}, {"z": [0.5], "e": [2.0], "boundary": False},
-                      {"z": [0.5], "e": [2.0], "boundary": False}]}
+    """E1: subtractAppliedForce, lagged forces, restraint force +1 and engine force -1 at step 0: the measured
+    total force is exactly 0; the sample of step 0 is (-1 + 1) - 1 = -1."""
+    return _c1("W1", _v1(sub=True, hk=1.0, hc=1.5), [(0.5, -1.0, False), (0.5, 2.0, False), (0.5, 2.0, False)])
+
+
+def judge_zero_total(c, steps):
+    got = steps[-1]["sum"][0]
+    if steps[-1]["cnt"][0] != 2 or got != -1.0:
+        return ("subtractAppliedForce on, lagged total forces, harmonic restraint applying +1 while the engine force is -1 at step 0: "
+                "samples -1 and 2 belong to bin 0, so the stored sum must be -(-1+2) = -1 with count 2; the implementation stores %s with count %s "
+                "(the sample of step 0 recorded as 0: colvar::calc_colvar_properties skipped 'ft -= f_old' because ft.norm2() == 0)" % (got, steps[-1]["cnt"][0]))
+    return None
+
+
+def witness_zero_total_abf():
+    """E2: the ABF force itself cancels the engine force (minSamples 0, fullSamples 1, applyBias on,
+    subtractAppliedForce, lagged): engine force 2 at every step; from step 2 on the ABF force is -2 and the
+    measured total force exactly 0; every sample is 0 - (-2) = 2."""
+    return _c1("W1b", _v1(sub=True), [(0.5, 2.0, False)] * 4, full=1, min=0, apply=True)
+
+
+def judge_zero_total_abf(c, steps):
+    got = steps[-1]["sum"][0]
+    if steps[-1]["cnt"][0] != 3 or got != -6.0:
+        return ("subtractAppliedForce on, lagged total forces, engine force 2 at every step, ABF force -2 from step 1 on "
+                "(measured total force exactly 0): three samples of 2 belong to bin 0, stored sum must be -6; the implementation "
+                "stores %s with count %s: the sample is the total force WITHOUT the ABF force subtracted" % (got, steps[-1]["cnt"][0]))
+    return None
 
 
 def witness_value_zero():
-    """C04_abf_state_is_sample_sum_refuted_value_zero: lagged forces, value exactly 0 at step 0 while a restraint
-    applies +1 and the engine force is 1: the attributed sample for bin 1 is (1+1) - 0 = 2, the implementation records 1."""
-    v = {"periodic": False, "w": 1.0, "nx": 2, "lower": -1.0, "upper": 1.0, "sub": False, "hk": 1.0, "hc": 1.0}
-    return {"id": "W2", "vars": [v], "same": False, "full": 2, "min": 1, "apply": False, "update": True, "cap": False,
-            "maxf": [0.0], "szd": False, "hideJ": False, "abf_first": True,
-            "steps": [{"z": [0.0], "e": [1.0], "boundary": False}, {"z": [0.5], "e": [0.0], "boundary": False}]}
+    """lagged forces, value exactly 0 at step 0 while a restraint applies +1 and the engine force is 1:
+    the attributed sample for bin 1 is (1+1) - 0 = 2 (fixed in /repo: integer_power(0, 0))."""
+    return _c1("W2", _v1(lower=-1.0, upper=1.0, hk=1.0, hc=1.0), [(0.0, 1.0, False), (0.5, 0.0, False)])
 
 
 def judge_value_zero(c, steps):
     got = steps[-1]["sum"][1]
-    if steps[-1]["cnt"][1] == 1 and got != -2.0:
+    if steps[-1]["cnt"][1] != 1 or got != -2.0:
         return ("lagged total forces, variable value exactly 0 at step 0, engine force 1, harmonic restraint applying +1 (reported as applied force %s): "
                 "the sample of step 0 is (1+1) - 0 = 2, so the stored sum of bin 1 must be -2; the implementation stores %s "
-                "(colvar::communicate_forces multiplies the force by integer_power(value, 0), which is 0 for value == 0.0: the atoms never receive it)"
+                "(colvar::communicate_forces multiplies the force by integer_power(value, 0), which was 0 for value == 0.0)"
                 % (steps[0]["af"][0], got))
     return None
 
 
 def witness_zero_mean():
-    """C04_zero_mean_periodic_refuted (W3): one periodic variable, 2 bins, minSamples 1, fullSamples 2; one sample of
-    force 2 in bin 0 (count = minSamples: ramp 0).  Then the force in each bin is probed at repeated (boundary)
-    steps, which add no sample."""
-    v = {"periodic": True, "w": 1.0, "nx": 2, "P": 2.0, "c": 1.0, "lower": 0.0, "upper": 2.0, "sub": False, "hk": None, "hc": 0.0}
-    return {"id": "W3", "vars": [v], "same": True, "full": 2, "min": 1, "apply": True, "update": True, "cap": False,
-            "maxf": [0.0], "szd": False, "hideJ": False, "abf_first": True,
-            "steps": [{"z": [0.5], "e": [0.0], "boundary": False}, {"z": [0.5], "e": [2.0], "boundary": False},
-                      {"z": [0.5], "e": [0.0], "boundary": True}, {"z": [1.5], "e": [0.0], "boundary": True}]}
+    """E3: one periodic variable, 2 bins, minSamples 1, fullSamples 2; one sample of force 2 in bin 0
+    (count = minSamples: ramp 0).  Then the force in each bin is probed at repeated (boundary) steps, which add
+    no sample."""
+    v = _v1(periodic=True, P=2.0, c=1.0)
+    return _c1("W3", v, [(0.5, 0.0, False), (0.5, 2.0, False), (0.5, 0.0, True), (1.5, 0.0, True)], same=True, apply=True)
+
+
+def judge_zero_mean(c, steps):
+    f0, f1 = steps[2]["cf"][0], steps[3]["cf"][0]
+    if f0 + f1 != 0.0 or f0 != 0.0:
+        return ("1-D periodic ABF, 2 bins, minSamples 1, fullSamples 2, one sample (force 2) in bin 0: the ABF force is %s in bin 0 and %s in bin 1 "
+                "(sum %s; bin 1 has no sample and bin 0 is at minSamples: both must be 0): calc_biasing_force subtracts the "
+                "average of the unsmoothed means from the ramped force" % (f0, f1, f0 + f1))
+    return None
+
+
+def witness_zero_mean_ramp():
+    """E3b: the same grid during the ramp (fullSamples 4, minSamples 0): 4 samples (2,2,4,4) in bin 0, 2 samples (1,1)
+    in bin 1: ramped estimates -3 and -1/2, forces -5/4 and +5/4."""
+    v = _v1(periodic=True, P=2.0, c=1.0)
+    st = [(0.5, 0.0, False), (0.5, 2.0, False), (0.5, 2.0, False), (0.5, 4.0, False), (0.5, 4.0, False),
+          (1.5, 1.0, False), (1.5, 1.0, False), (0.5, 0.0, True), (1.5, 0.0, True)]
+    return _c1("W3b", v, st, same=True, apply=True, full=4, min=0)
+
+
+def judge_zero_mean_ramp(c, steps):
+    f0, f1 = steps[7]["cf"][0], steps[8]["cf"][0]
+    if f0 != -1.25 or f1 != 1.25:
+        return ("1-D periodic ABF, 2 bins, minSamples 0, fullSamples 4, samples (2,2,4,4) in bin 0 and (1,1) in bin 1: ramped estimates are -3 and -1/2, "
+                "so the zero-mean forces are -5/4 and +5/4; the implementation applies %s and %s (sum %s)" % (f0, f1, f0 + f1))
+    return None
+
+
+def witness_hidej_same():
+    """E4: hideJacobian, same-step total forces, a distance variable (Jacobian force 2kT/r): engine force 1 at
+    every step; the samples must be 1 (the Jacobian term is hidden) and the variable must receive
+    ABF force - fj (the compensation applied once)."""
+    v = _v1(kind="dist", onesite=False, lower=1.0, upper=3.0)
+    return _c1("W4", v, [(1.5, 1.0, False)] * 3, same=True, apply=True, hideJ=True, T=1000.0)
+
+
+def judge_hidej_same(c, steps):
+    got, n = steps[-1]["sum"][0], steps[-1]["cnt"][0]
+    fj = jac_force(c, c["vars"][0], 1.5)
+    if n != 2 or not close(got, -2.0):
+        return ("hideJacobian on, same-step total forces, distance r = 1.5 at T = 1000 K (Jacobian force fj = 2kT/r = %s), engine force 1: the two samples "
+                "must be 1 (Jacobian hidden; this is what the lagged convention records), stored sum -2; the implementation stores %s with count %s and applies %s "
+                "to the variable (ABF force %s and -fj): colvar::collect_cvc_total_forces adds fj to the total force although no compensating "
+                "force -fj is contained in same-step total forces, the Jacobian force is compensated twice" % (fj, got, n, steps[-1]["af"][0], steps[-1]["cf"][0]))
+    return None
+
+
+def witness_hidej_noforce():
+    """W5 (repaired in fix-C04-2): hideJacobian, lagged forces, applyBias off, no other bias, distance variable: the samples must be
+    the engine force 1 (Jacobian hidden); the implementation records 1 + fj."""
+    v = _v1(kind="dist", onesite=False, lower=1.0, upper=3.0)
+    return _c1("W5", v, [(1.5, 1.0, False)] * 3, same=False, apply=False, hideJ=True, T=1000.0)
+
+
+def judge_hidej_noforce(c, steps):
+    got, n = steps[-1]["sum"][0], steps[-1]["cnt"][0]
+    fj = jac_force(c, c["vars"][0], 1.5)
+    if n != 2 or not close(got, -2.0):
+        return ("hideJacobian on, applyBias off, no other bias, lagged total forces, distance r = 1.5 at T = 1000 K (fj = 2kT/r = %s), engine force 1: the two samples "
+                "must be 1 (Jacobian hidden), stored sum -2; the implementation stores %s with count %s: the variable reports the applied force %s = -fj but has no "
+                "f_cv_apply_force, so nothing reaches the atoms, while collect_cvc_total_forces adds fj to the measured force" % (fj, got, n, steps[-1]["af"][0]))
+    return None
+
+
+def witness_scaled():
+    """E6: scaledBiasingForce with the factor 1/2 in both bins, lagged forces, minSamples 0, fullSamples 1, engine force 2 at
+    every step: ABF force -2, applied -1, measured 1, every sample 1 - (-1) = 2."""
+    return _c1("W6", _v1(), [(0.5, 2.0, False)] * 4, full=1, min=0, apply=True, scaled=True, sfac=[0.5, 0.5])
+
+
+def judge_scaled(c, steps):
+    got, n = steps[-1]["sum"][0], steps[-1]["cnt"][0]
+    if n != 3 or got != -6.0:
+        return ("scaledBiasingForce on with the factor 0.5, lagged total forces, engine force 2 at every step: the ABF force is -2, the variable receives -1 "
+                "(applied force %s), the measured force is 1 and every sample must be 1 - (-1) = 2: stored sum -6 with count 3; the implementation stores %s with count %s "
+                "(update_system_force subtracts the unscaled colvar_forces)" % (steps[-1]["af"][0], got, n))
+    return None
+
+
+def witness_toggle():
+    """E7: applyBias switched off before step 2 and on again before step 4, lagged forces, minSamples 0, fullSamples 1, engine
+    force 2 at every step: five samples of 2 (a stale previous_colvar_forces would be subtracted at step 3)."""
+    c = _c1("W8", _v1(), [(0.5, 2.0, False)] * 6, full=1, min=0, apply=True, toggle=True)
+    for t, a in enumerate([True, True, False, False, True, True]):
+        c["steps"][t]["apply"] = a
+    return c
+
+
+def judge_toggle(c, steps):
+    got, n = steps[-1]["sum"][0], steps[-1]["cnt"][0]
+    if n != 5 or got != -10.0:
+        return ("applyBias on, switched off before step 2 (cv bias a set apply_force 0) and on again before step 4, lagged total forces, engine force 2 at every "
+                "step: five samples of 2, stored sum -10; the implementation stores %s with count %s (after the switch the bias keeps subtracting the last "
+                "force it applied: previous_colvar_forces is not reset)" % (got, n))
+    return None
+
+
+def witness_hidej_switched():
+    """W7 (known defect): hideJacobian, lagged forces, distance variable, applyBias on at step 0 and switched off before step 1."""
+    v = _v1(kind="dist", onesite=False, lower=1.0, upper=3.0)
+    c = _c1("W7", v, [(1.5, 1.0, False)] * 3, same=False, apply=True, hideJ=True, T=1000.0, toggle=True)
+    for t, a in enumerate([True, False, False]):
+        c["steps"][t]["apply"] = a
+    return c
+
+
+def judge_hidej_switched(c, steps):
+    got, n = steps[-1]["sum"][0], steps[-1]["cnt"][0]
+    fj = jac_force(c, c["vars"][0], 1.5)
+    if n != 2 or not close(got, -2.0):
+        return ("hideJacobian on, lagged total forces, distance r = 1.5 at T = 1000 K (fj = %s), engine force 1, applyBias on at step 0 and switched off before "
+                "step 1: the force measured for step 0 contains the compensation -fj, the two samples must be 1 (stored sum -2); the implementation stores %s with "
+                "count %s: collect_cvc_total_forces decides from f_cv_apply_force at step 1 whether -fj is contained in the force of step 0" % (fj, got, n))
+    return None
+
+
+def witness_input():
+    """inputPrefix with two prefixes: counts (3, 0) with gradients (-1.5, 0) and counts (1, 2) with gradients (0.5, 1), then two
+    samples of 2 in bin 0 and one of 1 in bin 1 (same-step)."""
+    return _c1("W9", _v1(), [(0.5, 0.0, False), (0.5, 2.0, False), (0.5, 2.0, False), (1.5, 1.0, False)], same=True, apply=True,
+               full=4, min=0, input=[{"cnt": [3, 0], "grad": [-1.5, 0.0]}, {"cnt": [1, 2], "grad": [0.5, 1.0]}])
+
+
+def judge_input(c, steps):
+    last = steps[-1]
+    if last["cnt"] != [6, 3] or last["sum"] != [-8.0, 1.0]:
+        return ("inputPrefix with two prefixes, counts (3, 0) / gradients (-1.5, 0) and counts (1, 2) / gradients (0.5, 1), then samples 2, 2 in bin 0 and 1 "
+                "in bin 1: counts must be (6, 3) and sums (-1.5*3 + 0.5*1 - 4, 1*2 - 1) = (-8, 1); the implementation has counts %s and sums %s" % (last["cnt"], last["sum"]))
+    return None
+
+
+WITNESSES = ((witness_zero_total, "sample:subtractAppliedForce-zero-total-force", judge_zero_total),
+             (witness_zero_total_abf, "sample:subtractAppliedForce-zero-total-force", judge_zero_total_abf),
+             (witness_value_zero, "sample:force-dropped-at-value-zero", judge_value_zero),
+             (witness_zero_mean, "force:periodic-zero-mean-during-ramp", judge_zero_mean),
+             (witness_zero_mean_ramp, "force:periodic-zero-mean-during-ramp", judge_zero_mean_ramp),
+             (witness_hidej_same, "sample:hideJacobian-same-step-adds-jacobian", judge_hidej_same),
+             (witness_hidej_noforce, "sample:hideJacobian-without-applied-force", judge_hidej_noforce),
+             (witness_scaled, "sample:scaledBiasingForce-unscaled-force-subtracted", judge_scaled),
+             (witness_toggle, "sample:applyBias-switched-stale-applied-force", judge_toggle),
+             (witness_hidej_switched, "sample:hideJacobian-applyBias-switched", judge_hidej_switched),
+             (witness_input, "sample:inputPrefix-data", judge_input))
 
 
 # ------------------------------------------------------------------------------- running
@@ -461,14 +914,30 @@ def run_batch(exe, cases, d, tag):
     lines = []
     for c in cases:
         lines += scenario(c)
+        if c.get("scaled"):
+            with open(os.path.join(d, "%s.sf" % c["id"]), "w") as f:
+                f.write(scaling_grid_file(c))
+        for n, ds in enumerate(inputs_of(c)):
+            tc, tg = input_grid_files(c, ds)
+            with open(os.path.join(d, "%s_in%d.count" % (c["id"], n)), "w") as f:
+                f.write(tc)
+            with open(os.path.join(d, "%s_in%d.grad" % (c["id"], n)), "w") as f:
+                f.write(tg)
     sc = os.path.join(d, "batch_%s.scn" % tag)
     with open(sc, "w") as f:
         f.write("\n".join(lines) + "\n")
     rc, o, e = V.sh([exe, sc], cwd=d, timeout=600)
-    return rc, parse_impl(o), e
+    res = parse_impl(o)
+    for c in cases:
+        if str(c["id"]) in res:
+            res[str(c["id"])]["state"] = parse_state(os.path.join(d, "%s.state" % c["id"]))
+            nd_ = len(c["vars"])
+            res[str(c["id"])]["files"] = (parse_multicol(os.path.join(d, "%s.count" % c["id"]), nd_, 1),
+                                          parse_multicol(os.path.join(d, "%s.grad" % c["id"]), nd_, nd_))
+    return rc, res, e
 
 
-def compare_fields(a, b, keys=("bin", "fbin", "cnt", "sum", "tf", "cf", "af")):
+def compare_fields(a, b, keys=("bin", "fbin", "cnt", "sum", "tf", "cf", "af", "go")):
     for k in keys:
         if a.get(k) != b.get(k):
             # -0.0 == 0.0 in python; NaN never equal
@@ -482,19 +951,43 @@ def setup():
         V.build_prog(n, s)
 
 
+SHOWN = ("bin", "fbin", "cf", "tf", "af", "cnt", "sum", "go")
+
+
+def tie_case(run, c, im, mline):
+    """implementation vs model, step by step, every field bit-exact"""
+    if c.get("tsf", 1) > 1:
+        return      # timeStepFactor is not in the model: these cases are judged by the oracle alone
+    steps_i = im["steps"]
+    msteps, spec = parse_model(mline) if mline is not None else ([], None)
+    if len(msteps) != len(steps_i):
+        run.mismatch("abf:steps", {"case": c}, len(steps_i), len(msteps))
+        return
+    for t, (a, b) in enumerate(zip(steps_i, msteps)):
+        bad = compare_fields(a, b)
+        if bad:
+            # component names share their first token with the oracle signatures of the same family
+            comp = {"cf": "force:cf", "af": "force:af", "go": "sample:gradient", "tf": "sample:sum:tf"}.get(bad, "sample:" + bad)
+            run.mismatch(comp, {"case": c, "step": t}, {k_: a.get(k_) for k_ in SHOWN}, {k_: b.get(k_) for k_ in SHOWN})
+            return
+
+
 def check(run):
     r = V.rng("C04")
     quick = run.tier == "quick"
-    run.cov["rule"] = ("scenarios: 1-3 exact distanceZ variables (periodic grids spanning the period, or not), dyadic engine forces, "
+    run.cov["rule"] = ("scenarios: 1-3 variables, each an exact distanceZ (periodic grids spanning the period, or not) or a distance along z "
+                       "(Jacobian force 2kT/r, T in {0,250,1000,4000} K, one-site or two-site total force), dyadic engine forces, "
                        "harmonic restraints as other biases, subtractAppliedForce per variable, both timing conventions, minSamples/fullSamples 0..6, "
-                       "maxForce, applyBias/updateBias off, stepZeroData, hideJacobian, run boundaries, values on bin edges / inside / outside. "
-                       "After every step bin, force_bin, ABF force, reported total force, applied force, samples and gradients arrays are compared "
-                       "(bit-exact) with the extracted model. non-trivial = >=2 bins hit, >=1 step outside the grid or rejected, >=1 bin above minSamples")
+                       "maxForce, applyBias/updateBias off, stepZeroData, hideJacobian, scaledBiasingForce (dyadic factor per bin), run boundaries, values on bin edges / inside / outside. "
+                       "After every step bin, force_bin, ABF force, reported total force, applied force, samples and gradients arrays and the stored "
+                       "gradient (value_output) are compared (bit-exact) with the extracted model; the saved state's samples/gradient blocks are checked "
+                       "against the exact mean of the attributed samples. non-trivial = >=2 bins hit, >=1 step outside the grid or rejected, >=1 bin above minSamples")
     run.assumptions += [
         "theorems are about the R instance of the model; the tie runs the float instance, which mirrors the order of the C++ floating-point operations",
-        "variables are distanceZ (zero Jacobian term): hideJacobian is switched on and off in the tie but the Jacobian force itself is not modelled",
+        "the Jacobian force of each variable at each step is an input of the model (0 for distanceZ, (2/r)*(kB*T) for distance, computed by the generator with the operations of the code)",
         "other biases are represented by the force they apply at each step (input of the model); in the tie they are harmonic restraints whose force the generator computes",
         "engine conventions are those of harness/vsim.h: same-step total forces exclude Colvars forces; lagged total forces include them (includecv 1)",
+        "the model describes the tree with the fix commits of branch fix-C04 (subtractAppliedForce at zero total force, zero mean of the ramped estimates, hideJacobian with same-step forces)",
     ]
     st = V.standard_start(run, PROP, EXTRACT, DRIVER, PROGS)
     if st is None:
@@ -505,7 +998,7 @@ def check(run):
 
     run_witnesses(run, unit, model, d)
 
-    n = 240 if quick else 6000
+    n = 400 if quick else 20000
     cases = []
     # corpus first
     cp = os.path.join(V.ROOT, "corpus", "C04_cases.txt")
@@ -517,7 +1010,9 @@ def check(run):
                 cc["id"] = "K%d" % len(cases)
                 cases.append(cc)
     for k in range(n):
-        cases.append(gen_case(r, "G%d" % k))
+        # thorough tier: one case in eight is a long history (every bin passes minSamples and fullSamples,
+        # several run boundaries, many returns to the same bins)
+        cases.append(gen_case(r, "G%d" % k, long_=(not quick and k % 8 == 7)))
 
     # batches are homogeneous in the timing convention (the feature tables of colvarbias are
     # static and depend on total_forces_same_step() at their first initialisation)
@@ -534,13 +1029,13 @@ def check(run):
                               {"kind": "case", "case": miss[0] if miss else None})
     mlines = [model_case(c) for c in cases]
     rcm, mout, em = V.run_lines(model, mlines)
+    nstate = 0
     for k, c in enumerate(cases):
         im = impl.get(c["id"])
         if im is None or im["config"] is None or "err=ok" not in im["config"]:
             run.mismatch("abf:config", {"case": c}, im["config"] if im else None, "accepted")
             continue
         steps_i = im["steps"]
-        msteps, spec = parse_model(mout[k]) if k < len(mout) else ([], None)
         nd = len(c["vars"])
         # evidence
         visited = set()
@@ -559,31 +1054,30 @@ def check(run):
         run.dist("subtract_vars", sum(1 for v in c["vars"] if v["sub"]))
         run.dist("periodic_1d", 1 if nd == 1 and c["vars"][0]["periodic"] else 0)
         run.dist("restrained_vars", sum(1 for v in c["vars"] if v["hk"] is not None))
+        run.dist("distance_vars_with_jacobian", sum(1 for v in c["vars"] if kind(v) == "dist" and c.get("T", 0.0) != 0.0))
+        run.dist("hideJacobian", 1 if c["hideJ"] else 0)
+        run.dist("two_component_vars", sum(1 for v in c["vars"] if kind(v) == "lin2"))
+        run.dist("scaledBiasingForce", 1 if c.get("scaled") else 0)
+        run.dist("inputPrefix_datasets", len(inputs_of(c)))
+        run.dist("applyBias_switched_at_run_time", 1 if c.get("toggle") else 0)
+        run.dist("timeStepFactor>1 (oracle only)", 1 if c.get("tsf", 1) > 1 else 0)
+        if im.get("state") is not None:
+            nstate += 1
         # property oracle on the implementation alone
-        for sig, text in oracle(c, steps_i):
+        for sig, text in oracle(c, steps_i, im.get("state"), im.get("files")):
             run.violation(sig, "case %s: %s" % (c["id"], text), {"kind": "case", "case": c})
+        if im.get("state") is None:
+            run.mismatch("abf:state-file", {"case": c}, None, "a text state with an abf block")
         # tie: implementation vs model, step by step
-        if len(msteps) != len(steps_i):
-            run.mismatch("abf:steps", {"case": c}, len(steps_i), len(msteps))
-            continue
-        for t, (a, b) in enumerate(zip(steps_i, msteps)):
-            bad = compare_fields(a, b)
-            if bad:
-                run.mismatch(bad, {"case": c, "step": t}, {k_: a.get(k_) for k_ in ("bin", "fbin", "cf", "tf", "af", "cnt", "sum")},
-                             {k_: b.get(k_) for k_ in ("bin", "fbin", "cf", "tf", "af", "cnt", "sum")})
-                break
+        tie_case(run, c, im, mout[k] if k < len(mout) else None)
         if k < 2:
-            run.sample({"scenario": scenario(c)[:60], "final": steps_i[-1] if steps_i else None})
-    run.cov["correspondence"].update({"scenarios": len(cases), "steps": sum(len(c["steps"]) for c in cases)})
-
+            run.sample({"scenario": scenario(c)[:60], "final": steps_i[-1] if steps_i else None, "state": im.get("state")})
+    run.cov["correspondence"].update({"scenarios": len(cases), "steps": sum(len(c["steps"]) for c in cases), "state_files_checked": nstate})
 
 
 def run_witnesses(run, unit, model, d):
-    """witnesses of the _refuted theorems, replayed on the implementation (first, so that the minimal
-    cases are the ones written to the replay files)"""
-    for wf, sig, judge in ((witness_zero_total, "sample:subtractAppliedForce-zero-total-force", judge_zero_total),
-                           (witness_value_zero, "sample:force-dropped-at-value-zero", judge_value_zero),
-                           (witness_zero_mean, "force:periodic-zero-mean-during-ramp", judge_zero_mean)):
+    """regression inputs of the repaired defects, replayed on the implementation and on the model"""
+    for wf, sig, judge in WITNESSES:
         c = wf()
         rc, res, err = run_batch(unit, [c], d, c["id"])
         im = res.get(c["id"])
@@ -593,45 +1087,24 @@ def run_witnesses(run, unit, model, d):
             continue
         text = judge(c, im["steps"])
         if text:
-            run.violation(sig, text, {"kind": "case", "case": c})
-        else:
-            run.notes.append("witness %s no longer reproduces on the implementation: the _refuted theorem should be replaced by the full statement" % c["id"])
-            # the model still has the behaviour: the tie must notice
-            ml = V.run_lines(model, [model_case(c)])[1]
-            ms, _ = parse_model(ml[0]) if ml else ([], None)
-            for t, (a, b) in enumerate(zip(im["steps"], ms)):
-                bad = compare_fields(a, b)
-                if bad:
-                    run.mismatch(bad, {"case": c, "step": t}, a, b)
-                    break
-
-
-
-
-def judge_zero_total(c, steps):
-    got = steps[-1]["sum"][0]
-    if steps[-1]["cnt"][0] == 2 and got != -1.0:
-        return ("subtractAppliedForce on, lagged total forces, harmonic restraint applying +1 while the engine force is -1 at step 0: "
-                "samples -1 and 2 belong to bin 0, so the stored sum must be -(−1+2) = -1; the implementation stores %s "
-                "(the sample of step 0 was recorded as 0: colvar::calc_colvar_properties skips 'ft -= f_old' when ft.norm2() == 0)" % got)
-    return None
-
-
-def judge_zero_mean(c, steps):
-    f0, f1 = steps[2]["cf"][0], steps[3]["cf"][0]
-    if f0 + f1 != 0.0:
-        return ("1-D periodic ABF, 2 bins, minSamples 1, fullSamples 2, one sample (force 2) in bin 0: the ABF force is %s in bin 0 and %s in bin 1 "
-                "(sum %s, not zero-mean; bin 1 has no sample and bin 0 is below the ramp, yet both are biased): calc_biasing_force subtracts the "
-                "average of the unsmoothed means from the ramped force" % (f0, f1, f0 + f1))
-    return None
+            run.violation(sig, "scenario %s (minimal input of an earlier defect; the cause given in parentheses is the one found then): %s" % (c["id"], text),
+                          {"kind": "case", "case": c})
+        for s_, t_ in oracle(c, im["steps"], im.get("state"), im.get("files")):
+            run.violation(s_, "case %s: %s" % (c["id"], t_), {"kind": "case", "case": c})
+        ml = V.run_lines(model, [model_case(c)])[1]
+        tie_case(run, c, im, ml[0] if ml else None)
 
 
 def replay(path):
     j = json.load(open(path))
     rp = j["replay"]
     print(json.dumps({k: v for k, v in j.items() if k != "replay"}, indent=1)[:3000])
-    if rp.get("kind") == "case" or "case" in rp:
-        c = rp["case"]
+    c = rp.get("case")
+    if isinstance(c, dict) and "case" in c and "vars" not in c:
+        c = c["case"]
+    if c is None and rp.get("first"):
+        c = rp["first"][0]["case"]["case"]
+    if c is not None:
         unit = V.build_prog("c04unit", PROGS["c04unit"])
         model = V.extract_model("C04", EXTRACT, DRIVER, ["ocaml/fops.ml"])
         d = V.scratch("C04r")
@@ -643,6 +1116,10 @@ def replay(path):
             print("step %d impl : %s" % (t, a))
             if t < len(ms):
                 print("step %d model: %s" % (t, ms[t]))
+        print("state file:", im.get("state"))
         print("spec (attributed samples):", spec)
-        print("oracle:", oracle(c, im["steps"]))
+        print("oracle:", oracle(c, im["steps"], im.get("state"), im.get("files")))
+        for wf, sig, judge in WITNESSES:
+            if wf()["id"] == c["id"] and len(im["steps"]) == len(c["steps"]):
+                print("judge:", judge(c, im["steps"]))
     return 0
